@@ -566,6 +566,35 @@ def sessions_case(ctx, case):
     ctx.label('sessions')
 
 
+_hand_cache = {}
+
+
+def _hand_frame(version, name):
+    """(id, payload) of a minimal instance of a self-parsing clientbound
+    play packet at this version, or None if the class is not registered"""
+    key = (version, name)
+    if key not in _hand_cache:
+        import hypothesis
+        from props import c05_roundtrip as P5
+        from props import c04_position as P4
+        from vlib.budget import Sink
+        fr = None
+        try:
+            cls = P5.find_class('clientbound', 'play', version, name)
+            if cls is not None:
+                build, strat = P5.HAND[name]
+                vals = hypothesis.find(strat(version), lambda v: True)
+                K, p, exp, extra = build(version, vals)
+                p.context = P4.fresh_ctx(version)
+                s_ = Sink()
+                p.write(s_)
+                fr = P5.frame_split(s_.value)
+        except Exception:
+            fr = None
+        _hand_cache[key] = fr
+    return _hand_cache[key]
+
+
 def burst_case(ctx, case):
     """'No packet is lost ... or reordered' at the place the statement names
     as observation point: packets handed to listeners by a real Connection.
@@ -586,6 +615,16 @@ def burst_case(ctx, case):
     # ids no table of any version knows; the payload carries the index
     burst = [('raw', 0x7A + (i % 3), i.to_bytes(4, 'big') +
               bytes(sizes[i % len(sizes)])) for i in range(n)]
+    hand_ids = []
+    for k, hname in enumerate(case.get('hand') or ()):
+        # packets of library classes that parse themselves (own read()):
+        # built and serialised by the library (C05 checks those bytes),
+        # sent as raw frames between the unknown ones
+        fr = _hand_frame(version, hname)
+        if fr is not None:
+            burst.insert(min(len(burst), 1 + 2 * k), ('raw',) + fr)
+            hand_ids.append(fr[0])
+            ctx.label('burst_self_parsing_packet')
     if case.get('play_compress') is not None and version == 47 and \
             case.get('compress') is None:
         # protocol 47 can switch compression on from the play state
@@ -619,8 +658,13 @@ def burst_case(ctx, case):
     if o.exceptions:
         ctx.fail('burst', 'R1-read-raises', case, repr(o.exceptions[0][0]))
         return
-    got = [i for i in seen if i in (0x7A, 0x7B, 0x7C)]
-    want = [0x7A + (i % 3) for i in range(n)]
+    keep = {0x7A, 0x7B, 0x7C} | set(hand_ids)
+    k0 = next((j for j, i in enumerate(seen) if i in (0x7A, 0x7B, 0x7C)),
+              len(seen))
+    got = [i for i in seen[k0:] if i in keep]
+    want = [it[1] for it in burst if it[0] == 'raw']
+    want = want[next((j for j, i in enumerate(want)
+                      if i in (0x7A, 0x7B, 0x7C)), 0):]
     if got != want:
         k = next((j for j, (a, b) in enumerate(zip(got, want)) if a != b),
                  min(len(got), len(want)))
@@ -830,6 +874,13 @@ def t_burst(ctx, n):
                              'compress': [None, 0, 64][k % 3],
                              'encrypt': bool(k % 2), 'sizes': [0, 70, 3],
                              'plan': 'whole'})
+    hands = ['MapPacket', 'PlayerListItemPacket', 'SpawnObjectPacket',
+             'CombatEventPacket', 'FacePlayerPacket']
+    for v in (757, 754, 340, 47):
+        for comp in (None, 0):
+            burst_case(ctx, {'version': v, 'n': 8, 'compress': comp,
+                             'encrypt': comp is None, 'sizes': [0, 5],
+                             'plan': 'whole', 'hand': hands})
     for t in (0, 64, 256):
         for at in (0, 3):
             for enc_ in (False, True):
@@ -846,6 +897,9 @@ def t_burst(ctx, n):
         'encrypt': st.booleans(),
         'sizes': st.lists(st.integers(0, 100), min_size=1, max_size=4),
         'play_compress': st.sampled_from([None, None, 0, 64]),
+        'hand': st.lists(st.sampled_from(
+            ['MapPacket', 'PlayerListItemPacket', 'SpawnObjectPacket',
+             'CombatEventPacket', 'FacePlayerPacket']), max_size=3),
         'at': st.integers(0, 5),
         'plan': st.one_of(st.just('whole'),
                           st.lists(st.integers(1, 400), min_size=1,
